@@ -579,5 +579,18 @@ example : DomWF ⟨[(2, 5), (8, 16), (510, 513), (1022, 1030), (65530, 65536),
 example : IInvD Domain.u32
     ((Hist.invert (Hist.remove (Hist.insert (Hist.insert Hist.empty 5) 600) 600)).run Domain.u32) :=
   ⟨(Hist.run_spec _ _).1, Hist.run_inDom _ _ (by simp [Hist.WF, Domain.contains, Domain.u32])⟩
+/-- a mixed-mode union flips the membership mode of the result (the set is "everything but 7") -/
+example : (Hist.union (Hist.insert Hist.empty 5)
+    (Hist.invert (Hist.insert (Hist.insert Hist.empty 5) 7))).run Domain.u32
+    = ⟨true, ⟨[(0, ⟨128, 1⟩)], 1⟩⟩ := by decide +kernel
+/-- `iter_ranges` of an inverted set on a discontinuous domain: ranges span domain gaps (5 → 8 is
+adjacent in the domain, so removing 5, 8, 9 leaves the runs 2..4 and 10..513) -/
+example : ((Hist.invert (Hist.insertRange (Hist.insert Hist.empty 5) 8 9)).run
+    ⟨[(2, 5), (8, 16), (510, 513)], false, 17⟩).ranges ⟨[(2, 5), (8, 16), (510, 513)], false, 17⟩
+    = [(2, 4), (10, 513)] := by decide +kernel
+example : DRInv [2, 3, 4, 5, 8, 9] [(2, 4), (8, 9)] := by
+  refine ⟨?_, by simp⟩
+  simp only [List.pairwise_cons, List.mem_cons, List.mem_nil_iff, or_false, forall_eq, DGap]
+  exact ⟨⟨by omega, 5, by simp, by omega, by omega⟩, by simp, by simp⟩
 
 end FontVerif.C14IntSet
